@@ -51,6 +51,8 @@ var preludeFuns = map[string]preludeFun{
 	"addDays":    {"addDays", []string{"Int", "Int"}, "Int"},
 	"sprint2":    {"sprint2", []string{"Int", "Str"}, "Str"},
 	"dense1":     {"dense1", []string{"(Array Int Bool)", "Int"}, "Bool"},
+	"sprintI":    {"sprintI", []string{"Int"}, "Str"},
+	"boolName":   {"boolName", []string{"Bool"}, "Str"},
 }
 
 const prelude = `(declare-sort Str 0)
@@ -98,6 +100,8 @@ const prelude = `(declare-sort Str 0)
 (declare-fun sprintIIa (Str) Int)
 (declare-fun sprintIIb (Str) Int)
 (assert (forall ((a Int) (b Int)) (! (and (= (sprintIIa (sprintII a b)) a) (= (sprintIIb (sprintII a b)) b)) :pattern ((sprintII a b)))))
+(declare-fun boolName (Bool) Str)
+(assert (not (= (boolName true) (boolName false))))
 (declare-fun sprintI (Int) Str)
 (declare-fun sprintIinv (Str) Int)
 (assert (forall ((a Int)) (! (= (sprintIinv (sprintI a)) a) :pattern ((sprintI a)))))
@@ -410,10 +414,14 @@ func (V *Verifier) discharge(o *Oblig, sums map[string]*SumFn, dir string) {
 		ctx, cancel := context.WithCancel(context.Background())
 		defer cancel()
 		ch := make(chan res, len(cfgs))
+		texts := make([]string, len(cfgs))
+		for i, c := range cfgs {
+			texts[i] = c.Pre + query(c.Level) // built sequentially (memoised per level)
+		}
 		for i, c := range cfgs {
 			go func(i int, c solverCfg) {
 				f := fmt.Sprintf("%s.%s.%d.smt2", base, sanitize(c.Name), i)
-				os.WriteFile(f, []byte(c.Pre+query(c.Level)), 0o644)
+				os.WriteFile(f, []byte(texts[i]), 0o644)
 				defer os.Remove(f)
 				args := append([]string{}, c.Cmd[1:]...)
 				if quick {
